@@ -64,11 +64,18 @@ func init() {
 	a1 := g.Artifact(atSbom, "sbom-1", &subj0, map[string]string{"k": "b"})
 	a2 := g.Artifact(atSig, "sig-of-a0", &a0, nil)
 	a3 := g.Artifact(atSig, "sig-of-missing", &subjMiss, map[string]string{"k": "a"})
+	// a referrer that is an index, and one that is a plain image manifest without artifactType (its
+	// config media type stands in)
+	a4 := g.Index(false, []modelreg.Desc{a0}, &subj0, map[string]string{"k": "c"})
+	cfg5 := g.Blob("application/vnd.example.cfgtype", `{"kind":"a5"}`)
+	a5 := g.Image(false, cfg5, []modelreg.Desc{g.Blob(graphs.MTOCILayer, "a5-layer")}, &subj0, "", map[string]string{"k": "a"})
 	arts = []artifact{
 		{"A0", a0.Digest, subj0.Digest, atSig, map[string]string{"k": "a"}},
 		{"A1", a1.Digest, subj0.Digest, atSbom, map[string]string{"k": "b"}},
 		{"A2", a2.Digest, a0.Digest, atSig, nil},
 		{"A3", a3.Digest, subjMiss.Digest, atSig, map[string]string{"k": "a"}},
+		{"A4", a4.Digest, subj0.Digest, "", map[string]string{"k": "c"}},
+		{"A5", a5.Digest, subj0.Digest, "application/vnd.example.cfgtype", map[string]string{"k": "a"}},
 	}
 	subjects = []string{subj0.Digest, subjMiss.Digest, a0.Digest}
 }
